@@ -118,26 +118,46 @@ func runC03(rc *runCtx) *RunResult {
 		}
 		return p
 	}
-	a := pick()
-	b := pickOther(a)
-	for tries := 0; antipodal(a, b) && tries < 4; tries++ {
-		b = pick()
+	// one to three crossers live at once and their calls interleave (zero draws: one crosser):
+	// state that leaks from one crosser into another through the package shows up single-threaded
+	type crosser struct {
+		e       *s2.EdgeCrosser
+		a, b    s2.Point
+		cur     s2.Point // model state: the current chain vertex
+		haveCur bool
 	}
-	if antipodal(a, b) {
+	ncr := 1 + int(t.Uint(3))
+	crs := make([]*crosser, 0, ncr)
+	for k := 0; k < ncr; k++ {
+		ca := pick()
+		cb := pickOther(ca)
+		for tries := 0; antipodal(ca, cb) && tries < 4; tries++ {
+			cb = pick()
+		}
+		if antipodal(ca, cb) {
+			continue
+		}
+		cr := &crosser{a: ca, b: cb}
+		if t.Chance(500) {
+			c := pick()
+			cr.e = s2.NewChainEdgeCrosser(ca, cb, c)
+			cr.cur, cr.haveCur = c, true
+			rc.log("crosser%d = NewChainEdgeCrosser(a,b,c) a=%v b=%v c=%v", k, ca, cb, c)
+		} else {
+			cr.e = s2.NewEdgeCrosser(ca, cb)
+			rc.log("crosser%d = NewEdgeCrosser(a,b) a=%v b=%v", k, ca, cb)
+		}
+		crs = append(crs, cr)
+	}
+	if len(crs) == 0 {
 		return res
 	}
-	var e *s2.EdgeCrosser
-	var cur s2.Point // model state: the current chain vertex
-	haveCur := false
-	if t.Chance(500) {
-		c := pick()
-		e = s2.NewChainEdgeCrosser(a, b, c)
-		cur, haveCur = c, true
-		rc.log("NewChainEdgeCrosser(a,b,c) a=%v b=%v c=%v", a, b, c)
-	} else {
-		e = s2.NewEdgeCrosser(a, b)
-		rc.log("NewEdgeCrosser(a,b) a=%v b=%v", a, b)
+	if len(crs) > 1 {
+		rc.inc("histories_with_several_crossers", 1)
 	}
+	var e *s2.EdgeCrosser
+	var a, b, cur s2.Point
+	haveCur := false
 	maxCalls := uint32(40)
 	if rc.tier == "thorough" {
 		maxCalls = 120
@@ -146,6 +166,12 @@ func runC03(rc *runCtx) *RunResult {
 	sig := uint64(1469598103934665603)
 	kinds := map[uint32]bool{}
 	for i := 0; i < n; i++ {
+		ci := 0
+		if len(crs) > 1 {
+			ci = int(t.Uint(uint32(len(crs))))
+		}
+		cr := crs[ci]
+		e, a, b, cur, haveCur = cr.e, cr.a, cr.b, cr.cur, cr.haveCur
 		op := t.Uint(5)
 		if !haveCur && (op == 1 || op == 3) {
 			op = 0 // chain calls need a current vertex
@@ -179,11 +205,13 @@ func runC03(rc *runCtx) *RunResult {
 			c = pick()
 			e.RestartAt(c)
 			cur, haveCur = c, true
-			rc.log("step%d RestartAt(c=%v)", i, c)
+			cr.cur, cr.haveCur = cur, haveCur
+			rc.log("step%d crosser%d RestartAt(c=%v)", i, ci, c)
 			rc.inc("op_restart", 1)
 			continue
 		}
 		cur, haveCur = d, true
+		cr.cur, cr.haveCur = cur, haveCur
 		rc.inc("evals", 1)
 		if antipodal(c, d) {
 			continue // the edge CD is not defined
